@@ -473,3 +473,67 @@ func H_Leveragelp_BeginBlocker() {
 	vrf.Assert(!p, "C18: leveragelp BeginBlocker never panics")
 	vrf.Cover("done")
 }
+
+// ---- the Eden price the masterchef end blocker divides by is never zero ----
+
+// The masterchef end blocker returns "invalid eden price" (an error handed to baseapp) when GetEdenDenomPrice is zero;
+// the distribution harnesses above havoc that price, so the guard is justified here on the real code: with any ELYS /
+// base-currency pool (none, constant-product with any reserves within 1:1e9, oracle pool) and any oracle prices
+// (absent included) the real GetEdenDenomPrice is positive.
+//
+//vrf:cover no-pool pool-priced pool-cannot-price
+//vrf:bound 0..1 pool holding uelys and uusdc (oracle or constant-product, reserves symbolic with uelys <= 1e9 x uusdc); oracle prices of uelys / uusdc absent (zero) or within [1e-12, 1] / [1e-9, 1e-3] per base unit
+func H_Amm_EdenPrice_NeverZero() {
+	o := symOracle{pUsdc: vrf.Dec("priceUsdc"), pAtom: sdkmath.LegacyZeroDec(), pElys: vrf.Dec("priceElys")}
+	lo := func(p sdkmath.LegacyDec, min, max sdkmath.LegacyDec) {
+		vrf.Assume(!p.IsNegative())
+		if !p.IsZero() {
+			vrf.Assume(p.GTE(min))
+			vrf.Assume(p.LTE(max))
+		}
+	}
+	lo(o.pUsdc, sdkmath.LegacyNewDecWithPrec(1, 9), sdkmath.LegacyNewDecWithPrec(1, 3))
+	lo(o.pElys, sdkmath.LegacyNewDecWithPrec(1, 12), sdkmath.LegacyOneDec())
+	env := wire.New(wire.Opts{Oracle: o})
+	env.Ctx = vrf.SetBlock(env.Ctx, vrf.I64("height", 1, maxT), vrf.I64("now", 1, maxT))
+	ctx := env.Ctx
+	env.Aprof.SetEntry(ctx, aptypes.Entry{BaseDenom: ptypes.BaseCurrency, Denom: usdc, Decimals: 6, CommitEnabled: true, WithdrawEnabled: true})
+	env.Amm.SetParams(ctx, ammtypes.DefaultParams())
+	hasPool := vrf.Bool("elysPool")
+	oracle := false
+	if hasPool {
+		be, bu := vrf.Int("bookElys"), vrf.Int("bookUsdc")
+		vrf.Assume(be.IsPositive())
+		vrf.Assume(bu.IsPositive())
+		vrf.Assume(be.LTE(bu.Mul(sdkmath.NewInt(1_000_000_000))))
+		vrf.Assume(be.LTE(sdkmath.NewIntWithDecimal(1, 30)))
+		vrf.Assume(bu.LTE(sdkmath.NewIntWithDecimal(1, 30)))
+		oracle = vrf.Bool("oraclePool")
+		pool := ammtypes.Pool{
+			PoolId: 1, Address: ammtypes.NewPoolAddress(1).String(), RebalanceTreasury: ammtypes.NewPoolRebalanceTreasury(1).String(),
+			PoolParams:  ammtypes.PoolParams{UseOracle: oracle, SwapFee: sdkmath.LegacyZeroDec(), FeeDenom: usdc},
+			TotalShares: sdk.Coin{Denom: ammtypes.GetPoolShareDenom(1), Amount: sdkmath.NewInt(1000000)},
+			PoolAssets: []ammtypes.PoolAsset{
+				{Token: sdk.Coin{Denom: ptypes.Elys, Amount: be}, Weight: sdkmath.NewInt(1), ExternalLiquidityRatio: sdkmath.LegacyOneDec()},
+				{Token: sdk.Coin{Denom: usdc, Amount: bu}, Weight: sdkmath.NewInt(1), ExternalLiquidityRatio: sdkmath.LegacyOneDec()},
+			},
+			TotalWeight: sdkmath.NewInt(2),
+		}
+		env.Amm.SetPool(ctx, pool)
+	}
+	var price sdkmath.LegacyDec
+	p := guard(func() { price = env.Amm.GetEdenDenomPrice(ctx, usdc) })
+	vrf.Assert(!p, "C18: pricing Eden never panics")
+	if p {
+		return
+	}
+	switch {
+	case !hasPool:
+		vrf.Cover("no-pool")
+	case oracle && (o.pElys.IsZero() || o.pUsdc.IsZero()):
+		vrf.Cover("pool-cannot-price")
+	default:
+		vrf.Cover("pool-priced")
+	}
+	vrf.Assert(price.IsPositive(), "C18: the Eden price used by the masterchef end blocker is positive whatever pools exist and whatever the price feeds do (its zero-price error cannot be reached)")
+}
